@@ -59,8 +59,14 @@ XFlags(t) == CASE t = "login"      -> {"pw"}
                [] t = "combined"   -> {"host", "ident", "nick", "user"}
                [] OTHER            -> {}
 
-\* iauth_flags as computed by calc_iauth_flags() with iauth_xquery loaded (policies A, R, U, W)
-IauthFlags == {"host", "ident", "nick", "user"}
+\* Which decision modules are loaded is part of the configuration.  iauth_xquery is the only stock module that declares
+\* policies (A, R, U, W) and handles passwords, queries and replies; without it (core alone, or core + iauth_class) the
+\* banner has no policy line and only the host name result is required.  A service table consisting of the single marker
+\* entry [name |-> "", type |-> "@noxquery"] stands for "iauth_xquery is not loaded" (an empty table = loaded, no services).
+XQ == ~(Len(Services) = 1 /\ Services[1].type = "@noxquery")
+
+\* iauth_flags as computed by calc_iauth_flags(): IAUTH_GOT_HOSTNAME always; user info with policy A; nick and ident with U
+IauthFlags == IF XQ THEN {"host", "ident", "nick", "user"} ELSE {"host"}
 
 HexDigit(n) == CASE n = 0 -> "0" [] n = 1 -> "1" [] n = 2 -> "2" [] n = 3 -> "3" [] n = 4 -> "4"
                  [] n = 5 -> "5" [] n = 6 -> "6" [] n = 7 -> "7" [] n = 8 -> "8" [] n = 9 -> "9"
@@ -84,7 +90,8 @@ NewReq(id, ser, addr, port) ==
 
 Live(id) == id \in DOMAIN req
 
-InitSlots == [n \in 1..Len(Services) |->
+InitSlots == IF ~XQ THEN << >> ELSE
+             [n \in 1..Len(Services) |->
                  [name |-> Services[n].name, type |-> Services[n].type,
                   configured |-> Services[n].type \in TypeNames, used |-> TRUE, refs |-> 0]]
 
@@ -163,7 +170,7 @@ XCheckFrom(r, sl, flag, s, acc) ==
                                      !.ref = @ \cup {s}, !.sent = @ \cup {s}]
                      sl2 == [sl EXCEPT ![s].refs = @ + 1]
                  IN XCheckFrom(r2, sl2, flag, s + 1, acc \o lines)
-XCheck(r, flag) == XCheckFrom(r, slots, flag, 1, <<>>)
+XCheck(r, flag) == IF XQ THEN XCheckFrom(r, slots, flag, 1, <<>>) ELSE <<r, slots, <<>> >>
 
 \* End of a handler in iauth_core.c: module callbacks done, then iauth_check_request(req).
 Finish(id, x) ==
@@ -271,7 +278,8 @@ MoreFrom(r, sl, raw, s, acc) ==
 Password(e) ==
     IF ~Live(e.id) THEN Ignore
     ELSE LET r0 == [req[e.id] EXCEPT !.flags = @ \cup {"pw"}]
-             x == IF r0.more = {} \/ r0.password = Nil
+             x == IF ~XQ THEN <<r0, slots, <<>> >>       \* no module has a password handler
+                  ELSE IF r0.more = {} \/ r0.password = Nil
                   THEN \* iauth_xquery_check_password()
                        IF e.shape # "ok" THEN <<r0, slots, <<>> >>
                        ELSE LET m == ModeFold(e.modes, 1, FALSE, {}, {})
@@ -303,7 +311,7 @@ Unref(sl, s) == IF s <= Len(sl) /\ sl[s].used /\ sl[s].refs = 0 /\ ~sl[s].config
 \*         "NO", "AGAIN", "MORE" (with e.text), "UNL" (x line), "JUNK" (anything else)
 Reply(e) ==
     LET tg == TagTarget(e.tag) IN
-    IF tg = {} THEN Ignore
+    IF tg = {} \/ ~XQ THEN Ignore
     ELSE LET id == CHOOSE i \in tg : TRUE
              r0 == req[id]
              s == ReplySlot(r0, e.svc)
@@ -360,7 +368,7 @@ ConfigLines(s, acc) ==
                                          name |-> slots[s].name, type |-> slots[s].type]))
 InfoConfig(e) ==
     /\ UNCHANGED bvars
-    /\ out' = << [k |-> "a"] >> \o ConfigLines(1, <<>>)
+    /\ out' = << [k |-> "a"] >> \o (IF XQ THEN ConfigLines(1, <<>>) ELSE <<>>)
 
 -----------------------------------------------------------------------------
 (* SIGUSR1: conf_read() succeeds and iauth_xquery_services_changed() rebuilds the table.       *)
